@@ -28,6 +28,10 @@ structure ScopeObs where
   /-- accounts with a non-zero balance of the scope denom, with the balance -/
   holders : List (Addr × Int)
   supply : Int
+  /-- the value owner the `Scope` query reports (`""` when none or when the scope is not found) -/
+  qvo : String := ""
+  /-- the accounts whose `ValueOwnership` query lists this scope -/
+  listed : List Addr := []
   deriving DecidableEq, Repr
 
 structure Obs where
@@ -68,12 +72,16 @@ def holdersOk (o : ScopeObs) : Bool :=
 /-- the reported value owner is the token's holder (none iff no token) -/
 def voOk (o : ScopeObs) : Bool := o.vo = (holderOf o).getD ""
 def scopeOk (o : ScopeObs) : Bool := o.supply = 0 || o.exists_
+/-- the `Scope` and `ValueOwnership` queries tell the same story as the bank -/
+def queriesOk (o : ScopeObs) : Bool :=
+  o.qvo = (if o.exists_ then o.vo else "") && o.listed = o.holders.map (·.1)
 
 def tokenClause (o : ScopeObs) : Option String :=
   if !supplyOk o then some "token_supply_not_0_or_1"
   else if !holdersOk o then some "token_holders_ne_supply"
   else if !voOk o then some "value_owner_ne_token_holder"
   else if !scopeOk o then some "token_without_scope"
+  else if !queriesOk o then some "queries_disagree_with_token"
   else none
 
 /-! ### Clause 2: consent of the current owner; deposit permission on a restricted marker -/
@@ -137,7 +145,9 @@ def observeScope (s : State) (id : ScopeId) : ScopeObs :=
     owners := match findScope s id with | some e => e.owners | none => []
     vo := match denomOwner s.ledger id with | .ok o => o.getD "" | .error _ => "!"
     holders := holdersOf s.ledger id
-    supply := Ledger.supply s.ledger id }
+    supply := Ledger.supply s.ledger id
+    qvo := if hasScope s id then (match denomOwner s.ledger id with | .ok o => o.getD "" | .error _ => "!") else ""
+    listed := (holdersOf s.ledger id).map (·.1) }
 
 def observe (s : State) (ids : List ScopeId) : Obs :=
   { scopes := ids.map (observeScope s), grants := s.grants, markers := s.markers }
